@@ -5,27 +5,33 @@ LibraryDescription.cxx (compiled from REPO) are driven with random registries: m
 through the real CxxTokenizer), read<TargetsDescription>, and compared with the extracted model; the printed text cut
 after EVERY byte goes through the real reader; (2) real mfront runs in scratch directories: union over successive runs,
 then src/targets.lst damaged as a killed writer would leave it, followed by one more run."""
-import os, re, shutil
-from vlib import guarded_main, REPO, REPO_BUILD
+import os, re, shutil, signal, subprocess, threading, time
+from vlib import guarded_main, REPO, REPO_BUILD, Check, repo_lib_dirs
 
 SRCS = ["mfront/src/TargetsDescription.cxx", "mfront/src/LibraryDescription.cxx", "mfront/src/SpecificTargetDescription.cxx",
         "mfront/src/CompiledTargetDescriptionBase.cxx"]
 LIBS = ["-lTFELMFront", "-lMFrontLogStream", "-lTFELUtilities", "-lTFELConfig", "-lTFELException", "-lTFELSystem"]
 EXTRACT = '''From C47 Require Import C47Model.
 Require Import ExtrOcamlBasic.
-Extraction "c47_model.ml" merge_registry print_registry read_registry empty_registry run crash_state.
+Extraction "c47_model.ml" merge_registry print_registry read_registry empty_registry run crash_state wf_registry escape.
 '''
 VEC_POOL = ["a.cxx", "b.cxx", "src/c d.cxx", "-DX=1", "$(shell tfel-config --libs)", "", "a.cxx", "-L/opt/x y", 'say "hi"', "f_1", "g", "-lm"]
 NAMES = ["MaterialLaw", "Behaviour", "M-1", "lib.x", "Umat"]
 TNAMES = ["all", "check", "clean", "doc"]
 
 
-def gen_registry(rng, names=None, conflict_with=None):
+def gen_registry(rng, names=None, conflict_with=None, full=False):
+    """full: at least one library, every one of its 8 vectors (sources, cppflags, include_directories, ldflags,
+    link_directories, link_libraries, epts, deps) has a non-empty string"""
     libs = []
-    for n in rng.sample(names or NAMES, rng.randint(0, 3)):
+    for n in rng.sample(names or NAMES, rng.randint(1 if full else 0, 3)):
         lib = {"type": rng.choice("MS"), "name": n, "prefix": rng.choice(["lib", "lib", ""]), "suffix": rng.choice(["so", "so", "dll"]),
                "install": rng.choice(["", "", "/opt/tfel", "/usr/local/lib x"]),
-               "vecs": [[rng.choice(VEC_POOL) for _ in range(rng.choice([0, 0, 1, 2, 4]))] for _ in range(8)]}
+               "vecs": [[rng.choice(VEC_POOL) for _ in range(rng.choice([1, 2, 4] if full else [0, 0, 1, 2, 4]))] for _ in range(8)]}
+        if full:
+            for k, v in enumerate(lib["vecs"]):
+                if not any(v):
+                    v.append("x%d.cxx" % k)
         libs.append(lib)
     if conflict_with is None:
         # same name => same identity, otherwise the merge raises (tested separately)
@@ -109,13 +115,9 @@ def covers(a, r):
 
 
 def norm_tokens(lines, real):
-    toks = []
-    for l in lines[1:]:
-        kind, val = l[0], l[2:]
-        if real and kind == "t":
-            val = val[1:-1].replace('\\"', '"')
-        toks.append((kind, val))
-    return toks
+    """(kind, text): for a string token the text is the literal as it stands in the file (quotes and escapes included):
+    the model prints what write(os, v, id) must produce, the real side is what the real tokenizer found"""
+    return [(l[0], l[2:]) for l in lines[1:]]
 
 
 MFRONT_SRC = """@Parser MaterialLaw;
@@ -155,6 +157,7 @@ def lib_names(text):
 
 def mfront_part(c):
     c.repo_build(["mfront"])
+    c.log("mfront up to date")
     exe = os.path.join(REPO_BUILD, "mfront", "src", "mfront")
     sem = "/dev/shm/sem.mfront-%d" % os.getuid()
     saved = None   # mfront runs are isolated in a private /dev/shm by vlib.run: the shared semaphore is never touched
@@ -207,25 +210,173 @@ def mfront_part(c):
                      "the libraries silently)" % (k, log, after, len(lost), len(points)),
                      {"cut": k, "registry_before": s2, "libraries_after": after, "log": log,
                       "how": "mfront --interface=c A.mfront; ... B.mfront; head -c %d src/targets.lst > t; mv t src/targets.lst; mfront --interface=c C.mfront" % k}, True)
+        c.log("sequential mfront runs done")
+        concurrent_part(c, exe)
         return bool(lost)
     finally:
         pass
 
 
+def read_protocol(c):
+    """what the code says about the write protocol (MFront.cxx of the working tree): used to say which variant of the model
+    describes it; none of these facts is a violation of C47 by itself (sequential histories and crashes)"""
+    try:
+        txt = open(os.path.join(REPO, "mfront", "src", "MFront.cxx")).read()
+    except OSError:
+        return {}
+
+    def body(name):
+        i = txt.find("void MFront::" + name)
+        if i < 0:
+            return ""
+        j = txt.find("\n  }", i)
+        return txt[i:j]
+    w, a, e = body("writeTargetsDescription"), body("analyseTargetsFile"), body("exe()")
+    proto = {"temporary_file_then_rename": "std::rename(" in w,
+             "temporary_name_per_process": bool(re.search(r"getpid\s*\(\s*\)", w)),
+             "write_under_lock": "MFrontLockGuard" in w,
+             "read_under_lock": "MFrontLockGuard" in a,
+             "damaged_registry_is_fatal": bool(re.search(r"catch\s*\([^)]*\)\s*\{[^}]*tfel::raise", a, re.S)),
+             "one_critical_section_for_read_merge_write": "MFrontLockGuard" in e}
+    c.notes.append("write protocol read from mfront/src/MFront.cxx: %s" % proto)
+    return proto
+
+
+HEAVY = ["Norton", "ImplicitNorton", "Plasticity", "Elasticity", "Chaboche", "Lorentz", "Burger", "Mazars", "DDIF2", "ImplicitOrthotropicCreep"]
+
+
+def concurrent_part(c, exe):
+    """two real mfront processes at once in one directory (each in its own mount namespace: they do NOT share the lock,
+    which is the worst case for the temporary-file protocol): the registry must always be a complete one, that of one of
+    the two runs (C47_two_writers_never_damaged / _no_mixture).  Then the lost update (observation, outside the property)."""
+    wd0 = os.path.join(c.work, "conc")
+    npairs = c.pick(6, 30)
+    damaged, lost_updates = [], 0
+    for k in range(npairs):
+        wd = os.path.join(wd0, str(k))
+        os.makedirs(wd, exist_ok=True)
+        for law, lib, kk in (("A", "LibA", 2), ("B", "LibB", 3), ("C", "LibC", 5)):
+            with open(os.path.join(wd, law + ".mfront"), "w") as f:
+                f.write(MFRONT_SRC % {"law": law, "lib": lib, "k": kk})
+        c.run([exe, "--interface=c", "C.mfront"], cwd=wd, timeout=300)
+        res = {}
+
+        def go(law):
+            res[law] = c.run([exe, "--interface=c", law + ".mfront"], cwd=wd, timeout=300)
+        th = [threading.Thread(target=go, args=(x,)) for x in "AB"]
+        for t in th:
+            t.start()
+        for t in th:
+            t.join()
+        reg = os.path.join(wd, "src", "targets.lst")
+        text = open(reg).read() if os.path.exists(reg) else ""
+        names = lib_names(text)
+        rc, out, err = c.run([c._drv, c.work], input="PARSEFILE X %s\nDUMP X\n" % reg, timeout=60)
+        ok = "ERR" not in out and rc == 0
+        c.count(1, ("concurrent", k), True)
+        both_ok = res["A"][0] == 0 and res["B"][0] == 0
+        if not ok or not ({"LibC"} <= names <= {"LibA", "LibB", "LibC"}) or (both_ok and not (names & {"LibA", "LibB"})):
+            damaged.append((k, sorted(names), text, out[-300:]))
+        elif both_ok and len(names) < 3:
+            lost_updates += 1
+        leftovers = [f for f in os.listdir(os.path.join(wd, "src")) if ".tmp" in f]
+        if leftovers:
+            c.notes.append("temporary registry file left behind after two concurrent runs: %s" % leftovers)
+    if damaged:
+        k, names, text, out = damaged[0]
+        c.report("concurrent:damaged", "two mfront runs at once (A.mfront, B.mfront) over a registry holding LibC leave src/targets.lst "
+                 "that is not the complete registry of one of them: libraries %s, reader says %r (%d of %d pairs)" % (names, out, len(damaged), npairs),
+                 {"targets.lst": text, "how": "mfront --interface=c C.mfront; (mfront --interface=c A.mfront & mfront --interface=c B.mfront; wait)"}, True)
+    c.log("concurrent pairs done")
+    # the lost update, forced: B is slow between its read and its write (several behaviours), A runs entirely in between
+    wd = os.path.join(wd0, "lost")
+    os.makedirs(wd, exist_ok=True)
+    with open(os.path.join(wd, "A.mfront"), "w") as f:
+        f.write(MFRONT_SRC % {"law": "A", "lib": "LibA", "k": 2})
+    heavy = [os.path.join(REPO, "mfront", "tests", "behaviours", h + ".mfront") for h in HEAVY]
+    heavy = [h for h in heavy if os.path.exists(h)]
+    # the same behaviours under several file names: B spends seconds between its read and its write
+    hd = os.path.join(wd, "heavy")
+    os.makedirs(hd, exist_ok=True)
+    copies = []
+    for r in range(2):
+        for h in heavy:
+            dst = os.path.join(hd, "%s_%d.mfront" % (os.path.basename(h)[:-7], r))
+            shutil.copyfile(h, dst)
+            copies.append(dst)
+    heavy = copies
+    seen = "not attempted"
+    if len(heavy) >= 4:
+        # same command line and environment as vlib.run gives to mfront (private /dev/shm); Popen because B must be held
+        # (SIGSTOP) between its read of the registry and its write while A runs entirely
+        cmd = [exe, "--interface=generic"] + heavy
+        if Check.private_shm_ok():
+            cmd = ["unshare", "-m", "sh", "-c", 'mount -t tmpfs tmpfs /dev/shm && exec "$@"', "sh"] + cmd
+        env = dict(os.environ)
+        env["LD_LIBRARY_PATH"] = ":".join(repo_lib_dirs()) + ":" + env.get("LD_LIBRARY_PATH", "")
+        pb = subprocess.Popen(cmd, cwd=wd, env=env, stdout=subprocess.DEVNULL, stderr=subprocess.DEVNULL)
+        try:
+            # B reads the registry before it treats its first file: wait for the first file it generates
+            t_end = time.time() + 60
+            while time.time() < t_end and pb.poll() is None and not any(
+                    fn.endswith((".cxx", ".hxx")) for _, _, fs in os.walk(wd) for fn in fs):
+                time.sleep(0.005)
+            held = pb.poll() is None
+            if held:
+                os.kill(pb.pid, signal.SIGSTOP)
+            ra = c.run([exe, "--interface=c", "A.mfront"], cwd=wd, timeout=300)
+            if held:
+                os.kill(pb.pid, signal.SIGCONT)
+            rb = pb.wait(timeout=600)
+        finally:
+            if pb.poll() is None:
+                pb.kill()
+        reg = os.path.join(wd, "src", "targets.lst")
+        names = lib_names(open(reg).read()) if os.path.exists(reg) else set()
+        if ra[0] == 0 and rb == 0 and held:
+            seen = ("REPRODUCED: both runs exit 0, the registry holds %s, LibA of the run that finished first is lost" % sorted(names)
+                    if "LibA" not in names else "not reproduced (registry holds %s)" % sorted(names))
+        else:
+            seen = "not decisive (rc A=%s, B=%s, B held=%s)" % (ra[0], rb, held)
+    c.notes.append("concurrency (outside the property: histories are sequences of runs): %d pairs of simultaneous real mfront runs, registry always "
+                   "complete; %d pair(s) ended with only one of the two new libraries (lost update: the lock is taken for the read and, separately, "
+                   "for the write -- theorem C47_no_library_lost_under_concurrency_refuted); forced lost update with a slow run B: %s"
+                   % (npairs, lost_updates, seen))
+    c.sample({"concurrent_pairs": npairs, "damaged": len(damaged), "lost_updates_seen": lost_updates, "forced_lost_update": seen})
+
+
 def main(c):
     drv = c.cxx("driver", ["driver.cxx"], SRCS, libs=LIBS, link_repo_libs=True)
+    c._drv = drv
+    c.log("driver built")
     mdl = c.ocaml_extract("c47", ["C47Model.v"], EXTRACT, "model_driver.ml")
+    c.log("model extracted")
+    # the Coq development is compiled while the drivers and mfront run (one more job, see AGENT_GUIDE: at most 4)
+    coq_files = ["C47Model.v", "C47Proofs.v", "C47Reader.v", "C47Round.v", "C47Conc.v", "C47Strings.v", "Properties_C47.v"]
+    coq_box = {}
+
+    def coq_job():
+        try:
+            coq_box["res"] = c.coq(coq_files, timeout=900)
+        except Exception as e:     # reported after the join
+            coq_box["exc"] = e
+    coq_thread = threading.Thread(target=coq_job)
+    coq_thread.start()
+    proto = read_protocol(c)
     c.trusted("props/C47/driver.cxx, props/C47/model_driver.ml (line protocol, Coq string <-> OCaml string), the Python generator and differ",
               "libraries of /repo/_build for everything but TargetsDescription.cxx, LibraryDescription.cxx, SpecificTargetDescription.cxx, "
               "CompiledTargetDescriptionBase.cxx (compiled from the working tree); the real CxxTokenizer turns bytes into tokens")
     ncases = c.pick(150, 1500)
     ntrunc = c.pick(2, 20)
     script, plan = [], []
+    nfull = 0
     for i in range(ncases):
-        a, b, d = gen_registry(c.rng), gen_registry(c.rng), gen_registry(c.rng)
+        full = i < 10 or i % 7 == 0      # libraries whose eight vectors are all non-empty (deps, link_libraries, ... included)
+        nfull += full
+        a, b, d = gen_registry(c.rng, full=full), gen_registry(c.rng, full=full), gen_registry(c.rng)
         script += raw_script("A", a) + raw_script("B", b) + raw_script("C", d)
-        cmds = ["NEWEMPTY D", "MERGE D A 1", "DUMP D", "MERGE D B 1", "DUMP D", "MERGE D B 1", "DUMP D", "TOKENS D", "READ E D", "DUMP E",
-                "NEWEMPTY F", "MERGE F E 0", "MERGE F C 1", "DUMP F"]
+        cmds = ["NEWEMPTY D", "MERGE D A 1", "DUMP D", "MERGE D B 1", "DUMP D", "MERGE D B 1", "DUMP D", "WF D", "TOKENS D", "READ E D", "DUMP E",
+                "NEWEMPTY F", "MERGE F E 0", "MERGE F C 1", "DUMP F", "WF F"]
         if i < ntrunc:
             cmds.append("TRUNC D %d" % (1 if i == 0 else 7))    # every byte of the first registry, every 5th of the others
         script += cmds
@@ -239,6 +390,7 @@ def main(c):
         conf.append((a, b))
     text = "\n".join(script) + "\n"
     rc, out, err = c.run([drv, c.work], input=text, timeout=1200)
+    c.log("real registry code run")
     if rc != 0:
         c.report("driver", "driver over the real TargetsDescription failed rc=%d: %s" % (rc, err[-400:]), {"stderr": err[-3000:]}, False)
         return
@@ -267,7 +419,9 @@ def main(c):
         if any(status(l) == "ERR" for (_, l) in seq) or any(status(l) == "ERR" for (_, l) in mseq):
             rs = [(cm, status(l)) for (cm, l) in seq if status(l)]
             ms = [(cm, status(l)) for (cm, l) in mseq if status(l)]
-            rep("unexpected-error", i, "a merge / read of well-formed registries raised: code %s, model %s" % (rs, ms), {"A": a, "B": b, "C": d})
+            msg = next((l for (_, ls) in seq for l in ls if l.startswith("ERR")), "")
+            rep("unexpected-error", i, "a merge / read of well-formed registries raised: code %s, model %s; the code says: %s" % (rs, ms, msg[:300]),
+                {"A": a, "B": b, "C": d, "message": msg})
             continue
         dumps = [parse_dump(l) for (cm, l) in seq if cm.startswith("DUMP")]
         mdumps = [parse_dump(l) for (cm, l) in mseq if cm.startswith("DUMP")]
@@ -289,6 +443,10 @@ def main(c):
                 rep("correspondence-merge", i, "model and code disagree on the registry after step %s: code %s, model %s" % (nm, rd, md),
                     {"A": a, "B": b, "C": d, "code": rd, "model": md})
                 break
+        for (cm, l) in mseq:
+            if cm.startswith("WF") and l[0] != "WF 1":
+                rep("wellformed", i, "a registry built by mergeTargetsDescription from the empty one is outside the class of the round-trip theorem "
+                    "(wf_registry = false in the model) after %s" % cm, {"A": a, "B": b, "C": d})
         rt = norm_tokens([l for (cm, l) in seq if cm.startswith("TOKENS")][0], True)
         mt = norm_tokens([l for (cm, l) in mseq if cm.startswith("TOKENS")][0], False)
         if split_targets(rt) != split_targets(mt):
@@ -321,17 +479,26 @@ def main(c):
     if crashes:
         c.notes.append("reader CRASHED (signal) on %d truncated files: read<LibraryDescription>/read<TargetsDescription> loop on "
                        "'c->value' without testing c != end (not counted as a violation: the run does not succeed)" % crashes)
+    c.log("compared")
     # real mfront
     observed = mfront_part(c)
+    c.log("mfront runs done")
     c.coverage["rule"] = ("%d seeded random registry triples (0-3 libraries among 5 names, 8 vectors each with duplicates, empty strings, spaces, "
                           "quotes; headers; targets all/check/clean/doc): merge, merge again, print (token by token), read back, later run; "
                           "%d identity conflicts; byte-by-byte truncation of %d printed registries through the real reader; mfront runs A, B, B "
-                          "then C after 7 cut points of src/targets.lst" % (ncases, len(conf), ntrunc))
+                          "then C after 7 cut points of src/targets.lst; %d of the triples have libraries whose eight vectors are all non-empty; "
+                          "pairs of simultaneous real mfront runs (see samples)" % (ncases, len(conf), ntrunc, nfull))
     c.coverage["traces_validated_against_impl"] = ncases + len(conf)
-    files = ["C47Model.v", "C47Proofs.v", "Properties_C47.v"]
-    if observed:
-        files.append("Properties_C47_pinned_refuted.v")
-    res = c.coq(files, timeout=600)
+    coq_thread.join()
+    c.log("coq done")
+    if "exc" in coq_box:
+        raise coq_box["exc"]
+    res = coq_box["res"]
+    if observed and res.ok:
+        # the pinned protocol is back: the positive crash theorems do not describe this code, the refutation does
+        res2 = c.coq(["Properties_C47_pinned_refuted.v"], timeout=600)
+        res.ok = res.ok and res2.ok
+        res.failed += res2.failed
     if not res.ok:
         if any(v[3] for v in c.violations):
             c.notes.append("proof obligations failed: %s; concrete failing inputs reported above" % [f[2] for f in res.failed])
